@@ -75,6 +75,8 @@ def walk_shallow(root):
         for c in ast.iter_child_nodes(n):
             if isinstance(c, FuncT + (ast.Lambda, ast.ClassDef)):
                 continue
+            if isinstance(n, ast.AnnAssign) and c is n.annotation:
+                continue        # annotations of locals are never evaluated in function scope
             todo.append(c)
 
 
